@@ -312,7 +312,18 @@ def c11_6(ctx):
     if adds and "call:value" in origins(ifn, adds[0].id, adds[0].ast.value):
         out.append(ctx.ok(ispec, "total_input_sats accumulates tx_in.value() per input", adds[0].ast, imod, key="input-total"))
     else:
-        out.append(ctx.bad(ispec, "total_input_sats does not accumulate tx_in.value()", ifn, imod, key="input-total"))
+        oo = origins(ifn, adds[0].id, adds[0].ast.value) if adds else set()
+        from_records = adds and "attrname:amount" in oo and ("attrname:prev_tx" in oo or "attrname:prev_out" in oo)
+        agree = [r for r in c11_14(ctx) if r.status == "ok"]
+        if from_records and agree:
+            # another source than the fee's, but one that validate() ties to it: both UTXO records are compared with each other
+            # (C11.14) and tx_in.value() is set from them when the PSBT is read
+            out.append(ctx.ok(ispec, "total_input_sats accumulates the amount of the input's UTXO record; validate() makes the records agree (C11.14)", adds[0].ast, imod,
+                              key="input-total"))
+        else:
+            out.append(ctx.bad(ispec, "total_input_sats does not accumulate tx_in.value()%s" % (
+                " but the amount of a UTXO record, and nothing makes the two records of an input agree: the total and the fee can come from different records"
+                if from_records else ""), ifn, imod, key="input-total"))
     return out
 
 
